@@ -4,6 +4,7 @@ use crate::common::{Cfg, Slot, NT, READ_SEPS, V};
 use crate::engine::{Acc, Ctx, Prop, Verdict, Worker};
 use crate::lines::{Class, Line, NumLit, Tok};
 use crate::mixed::{any_line, GenLine};
+use crate::vocab::vocab;
 use proptest::prelude::*;
 use serde::{Deserialize, Serialize};
 
@@ -127,7 +128,25 @@ fn extra_producers() -> impl Strategy<Value = GenLine> {
     let date = crate::c09::case_strategy().prop_map(|c| GenLine { prelude: vec![], line: crate::c09::case_line(&c), lang: c.lang.clone(), tz: None, src: "C09".into() });
     // times in Turkish too (the lexer is the same; Turkish prints the zone like English)
     let time = (crate::c11::time_strategy(), prop::sample::select(vec!["en", "tr"]), prop::option::of(prop::sample::select(vec!["EST", "CET", "NPT", "GMT+3", "est", "Cet", "gmt+3", "Gmt+5:30", "gmt-7", "GMT+11", "gmt1"]))).prop_map(|(t, lang, tz)| GenLine { prelude: vec![], line: Line::new(vec![t.tok()]), lang: lang.into(), tz: tz.map(|s| s.to_string()), src: "C11".into() });
-    prop_oneof![3 => money, 3 => unit, 3 => number, 2 => percent, 3 => dur, 3 => date, 2 => time]
+    // based integers: random ones, and hexadecimal ones whose digits spell a currency code (0xAF, 0x1AED, 0xCD1: a
+    // printed literal must not read back as money)
+    let is_hex = |t: &str| !t.is_empty() && t.chars().all(|ch| ('a'..='f').contains(&ch));
+    let mut fragments: Vec<String> = vec![];
+    for k in vocab().all_currency_keys.iter() {
+        if is_hex(k) {
+            fragments.push(k.to_uppercase()); // 0x1AED: a digit followed by AED
+        } else if k.starts_with('x') && is_hex(&k[1..]) {
+            fragments.push(k[1..].to_uppercase()); // 0xAF: `0` followed by xAF
+        }
+    }
+    if fragments.is_empty() {
+        fragments.push("AF".to_string());
+    }
+    let coded = (prop::sample::select(fragments), prop::sample::select(vec!["", "", "1", "2F", "10"]), prop::sample::select(vec!["", "0", "1", "00", "9A"])).prop_map(|(code, pre, post)| u64::from_str_radix(&format!("{}{}{}", pre, code, post), 16).unwrap_or(175));
+    let based = (prop_oneof![2 => crate::c13::n_strategy(), 2 => coded], prop::sample::select(vec!["hex", "octal", "binary"])).prop_map(|(n, t)| {
+        GenLine::simple(Line::new(vec![Tok::num(NumLit::new(n as f64)), Tok::word("to", Class::Conn), Tok::word(t, Class::Keyword)]), "C13")
+    });
+    prop_oneof![3 => money, 3 => unit, 3 => number, 2 => percent, 3 => dur, 3 => date, 2 => time, 2 => based]
 }
 
 pub fn case_strategy() -> impl Strategy<Value = Case> {
